@@ -1137,6 +1137,20 @@ def rule_grammar_guards(col, facts):
                             for x in expr_calls(e):
                                 if last_seg(x[1]) == "read_if_value" and any(last_seg(y[1]) == "base_prefix" for y in expr_calls(x)):
                                     ok = True
+                    if not ok:
+                        # the look-up may have been moved into a helper whose result is matched
+                        # (`if let Some(rest) = strip_base_prefix(&byte)? { is_prefix = true; .. }`)
+                        def _reads_prefix(g, depth=0):
+                            for _b, c2, a2, _d2, _t2 in g.calls():
+                                if last_seg(callee_name(c2)) == "read_if_value" and len(a2) > 1 and any(last_seg(y[1]) == "base_prefix" for y in expr_calls(op_expr(g, a2[1]))):
+                                    return True
+                                if depth < 2 and any(h.crate == g.crate and h.short != g.short and _reads_prefix(h, depth + 1) for h in facts.by_short.get(callee_name(c2), [])):
+                                    return True
+                            return False
+                        via = [x[1] for _d, e, p in path_conditions(pn, i) for x in expr_calls(e) if any(h.crate == pn.crate and _reads_prefix(h) for h in facts.by_short.get(x[1], []))]
+                        if via:
+                            col.assumed("not-applied", "CFG-grammar:parse_number:is_prefix#%d" % k, "`is_prefix` is set under a test of the helper %s, which looks the prefix character up: which of its results sets the flag is not decided" % via[0], pn.loc(st[3]))
+                            continue
                     col.check(R, "parse_number:is_prefix#%d:after-prefix-character" % k, ok,
                               "`is_prefix` is set without the prefix character having been read (only the leading `0` was): a plain `0` / `0.5` loses its zero (EmptyMantissa) and the leading-zeros check is switched off for `01`", pn.loc(st[3]))
         col.check(R, "parse_number:is_prefix:set", k >= 1, "`is_prefix` is never set", pn.loc())
